@@ -32,7 +32,7 @@ LEVEL_TEXT = (
 )
 LEVEL_NOTE = "Trusted: rustc MIR; the relation between the coloured and the stripped run is not mechanised."
 
-FLOORS = {"ch_width": 4, "len_utf8": 1, "push": 1}
+FLOORS = {"ch_width": 2, "len_utf8": 1, "push": 1}   # vacuity guard only (display_width and break_apart each measure)
 
 
 def configs(tier):
